@@ -85,12 +85,14 @@ theorem autoStyle_folded {o : Opts} {v : List Char} (h : autoStyle o false v = s
         · cases h
       · cases h
 
-/-- The automatic folded block round-trips at document level (root, map value, seq item, enum newtype
-payload): whenever the writer selects it. -/
-theorem folded_doc (o : Opts) (p : SerScalar.Pos) (v : List Char) (hp : blockSimplePos p = true)
-    (hstep : 1 ≤ o.indentStep)
-    (hauto : autoStyle o false v = some .folded) :
+/-- The automatic folded block round-trips at document level in every block value position with a
+fixed opening, whenever the writer really emits it, under every option vector. -/
+theorem folded_doc (o : Opts) (p : SerScalar.Pos) (v : List Char) (hp : isBlockPos p = true)
+    (hstep : 1 ≤ o.indentStep) (hauto : autoStyle o false v = some .folded)
+    (hnf : blockFallback o (posCtx o p) v = false) :
     ∃ t, emitDoc o p v = .ok t ∧ readDoc (toRead p) t = some (.folded, v) := by
+  obtain ⟨hkey, hflow, hclosing⟩ := blockPos_facts p hp
+  obtain ⟨hinflow, hN, hgeoA, _, _⟩ := block_geometry o p hp hstep v hnf
   obtain ⟨hq, hnl, hpv⟩ := autoStyle_folded hauto
   obtain ⟨_, hhead, _, _, hsafe, _⟩ := pvs_unfold hpv
   have hnonl : ∀ c ∈ v, c ≠ '\n' := by
@@ -103,9 +105,8 @@ theorem folded_doc (o : Opts) (p : SerScalar.Pos) (v : List Char) (hp : blockSim
   have hheadsp : v.head? ≠ some ' ' := by
     rw [hv0]; simp only [List.head?_cons, ne_eq, Option.some.injEq]
     intro e; subst e; revert hc0; decide
-  let N := o.indentStep * (0 + 1)
+  let N := blockCols o (posCtx o p)
   obtain ⟨segs, hfold, hjoin, hsne, hsegs⟩ := foldLine_spec v (spaces N) o.foldedWrap hne hheadsp
-  -- characters of the segments
   have hsegchars : ∀ e ∈ segs, ∀ c ∈ e, isControl c = false := by
     intro e he c hc
     have := joinSp_mem segs e he c hc
@@ -122,27 +123,20 @@ theorem folded_doc (o : Opts) (p : SerScalar.Pos) (v : List Char) (hp : blockSim
     have : (c0 == ' ') = false := by
       apply Bool.eq_false_iff.mpr; intro e; have := eq_of_beq e; subst this; revert hc0; decide
     simp [List.takeWhile, this]
-  let body := '>' :: (['-'] ++ '\n' :: joinLines (segs.map (spaces N ++ ·)))
-  have hemit : emitDoc o p v = .ok (preamble o ++ (opening (toRead p) ++ body)) := by
-    have hV : writePlainOrQuoted ['V'] o.quoteAll = ['V'] := by rw [hq]; decide
-    have hser : ∀ cx : Ctx, cx.inFlow = false → blockBase cx = 0 →
-        serializeStr o cx v = .ok ((if cx.pendingSpace then [' '] else []) ++ writeIndent o cx 0 ++ body) := by
-      intro cx hcf hb
-      unfold serializeStr
-      rw [hcf, hauto]
-      simp only
-      have hbase : (if cx.pendingSpace = true then cx.mapDepth.getD cx.depth else cx.afterDash.getD cx.depth) = 0 := hb
-      rw [hbase, htrim, hfls]
-      simp only [Nat.lt_irrefl, decide_false, Bool.false_and, Bool.and_false, Bool.or_self, Bool.false_eq_true, if_false, Nat.sub_self, chompInd]
-      rw [writeFoldedBlock_single v _ _ _ hnonl]
-      rw [show o.indentStep * (0 + 1) = N from rfl] at *
-      rw [hfold]
-      simp [body]
-    cases p <;> first
-      | (cases hp; done)
-      | (simp only [emitDoc, hV]
-         rw [hser _ rfl rfl]
-         cases hy : o.yaml12 <;> simp [writeIndent, hy, spaces, opening, toRead, preamble])
+  have hni : needsInd v = false := by simp [needsInd, htrim, hfls]
+  have hhdr : blockHeaderTail o (posCtx o p) v = ['-'] := by
+    simp [blockHeaderTail, hni, htrim, chompInd]
+  let T := '>' :: (['-'] ++ '\n' :: joinLines (segs.map (spaces N ++ ·)))
+  have hser : serializeStr o (posCtx o p) v =
+      .ok (spOf (posCtx o p) ++ writeIndent o (posCtx o p) (blockBase (posCtx o p)) ++ T) := by
+    unfold serializeStr
+    rw [hinflow, hauto]
+    simp only [hnf, Bool.false_eq_true, if_false]
+    rw [writeFoldedBlock_single v _ _ _ hnonl]
+    rw [show spaces (1 * blockCols o (posCtx o p)) = spaces N by simp [N]]
+    rw [hfold]
+    simp [spOf, T, hhdr]
+  have hemit := emit_of_block o p hkey hflow v T (blockBase (posCtx o p)) (by intro e; subst e; rfl) hser
   refine ⟨_, hemit, ?_⟩
   have hlines : ∀ l ∈ segs.map (spaces N ++ ·), ∀ c ∈ l, c ≠ '\n' ∧ c ≠ '\r' := by
     intro l hl c hc
@@ -155,15 +149,9 @@ theorem folded_doc (o : Opts) (p : SerScalar.Pos) (v : List Char) (hp : blockSim
     · obtain ⟨_, hb, _⟩ := not_control_facts (hsegchars e he c hc)
       simp only [isBreak, Bool.or_eq_false_iff] at hb
       exact ⟨by simpa using hb.1, by simpa using hb.2⟩
-  have hhdr : ∀ c ∈ ['-'], isBreak c = false ∧ isNul c = false := by decide
-  have hpp : simplePos (toRead p) = true := by cases p <;> first | rfl | (cases hp; done)
-  have hso := stripOpening_opening (toRead p) hpp '>' (['-'] ++ '\n' :: joinLines (segs.map (spaces N ++ ·))) (by decide)
-  have hcl : (toRead p).closing = [] := by cases p <;> first | rfl | (cases hp; done)
-  have hfl : (toRead p).isFlow = false := by cases p <;> first | rfl | (cases hp; done)
-  have hnode := readNode_block (toRead p) hcl hfl false ['-'] (segs.map (spaces N ++ ·))
-    (posCol0 (toRead p)) (posParent (toRead p)) hhdr hlines
-  -- the block reader on the segments
-  have hN : 1 ≤ N := by simp only [N]; omega
+  have hhdrc : ∀ c ∈ ['-'], isBreak c = false ∧ isNul c = false := by decide
+  have hnode := readNode_block (toRead p) hclosing hflow false ['-'] (segs.map (spaces N ++ ·))
+    (posCol0 (toRead p)) (posParentO o (toRead p)) hhdrc hlines
   have hsegs2 : ∀ e ∈ segs, e ≠ [] ∧ headSat isBlank e = false := by
     intro e he
     obtain ⟨h1, h2⟩ := hsegs e he
@@ -186,12 +174,13 @@ theorem folded_doc (o : Opts) (p : SerScalar.Pos) (v : List Char) (hp : blockSim
     cases segs with
     | nil => exact absurd rfl hsne
     | cons e r => exact ⟨e, by simp, (hsegs e (by simp)).1⟩
-  have hind : blockIndent (posParent (toRead p)) 0 (segs.map (spaces N ++ ·)) = N := by
+  have hind : blockIndent (posParentO o (toRead p)) 0 (segs.map (spaces N ++ ·)) = N := by
     simp only [blockIndent, Nat.lt_irrefl, if_false]
     have := detectIndent_auto N segs [] hex hns 0 (by omega)
     rw [List.append_nil] at this
     rw [this]
-    cases p <;> first | (cases hp; done) | (simp only [toRead, posParent]; omega)
+    have := hgeoA hni
+    omega
   have htab : firstLineTab (segs.map (spaces N ++ ·)) = false := by
     cases segs with
     | nil => exact absurd rfl hsne
@@ -200,7 +189,7 @@ theorem folded_doc (o : Opts) (p : SerScalar.Pos) (v : List Char) (hp : blockSim
       cases hN' : N with
       | zero => omega
       | succ n => simp [spaces, List.replicate_succ, headSat]
-  have hread : readBlock false (posParent (toRead p)) ['-'] (segs.map (spaces N ++ ·)) = some (v, []) := by
+  have hread : readBlock false (posParentO o (toRead p)) ['-'] (segs.map (spaces N ++ ·)) = some (v, []) := by
     unfold readBlock
     have hph : parseHeader ['-'] = some (.strip, 0) := by decide
     rw [hph]
@@ -208,12 +197,7 @@ theorem folded_doc (o : Opts) (p : SerScalar.Pos) (v : List Char) (hp : blockSim
     rw [blockBody_fold N hN segs hsegs2 true [] hsne]
     simp [chompTail, hjoin]
   rw [hread] at hnode
-  obtain ⟨hh1, hh2⟩ := opening_head (toRead p) '>' (['-'] ++ '\n' :: joinLines (segs.map (spaces N ++ ·))) (by decide) (by decide)
-  rw [readDoc_frame o (toRead p) _ hh1 hh2]
-  have hpc : ((opening (toRead p) ++ body).head? == some '%') = false := by
-    cases p <;> first | rfl | (cases hp; done)
-  have hnul : (opening (toRead p) ++ body).any isNul = false := by
-    have h1 : (opening (toRead p)).any isNul = false := by cases p <;> decide
+  have hnul : T.any isNul = false := by
     have h3 : (joinLines (segs.map (spaces N ++ ·))).any isNul = false := by
       apply Bool.eq_false_iff.mpr
       intro hc
@@ -227,16 +211,10 @@ theorem folded_doc (o : Opts) (p : SerScalar.Pos) (v : List Char) (hp : blockSim
           subst this; revert hcn; decide
         · rw [(not_control_facts (hsegchars e he c hcm)).2.2] at hcn; cases hcn
       · subst e1; revert hcn; decide
-    simp only [body, List.any_append, List.any_cons, h1, h3]
+    simp only [T, List.any_append, List.any_cons, h3]
     decide
-  show readDocBody (toRead p) (opening (toRead p) ++ body) = _
-  unfold readDocBody
-  rw [hpc, hnul]
-  simp only [Bool.or_self, Bool.false_eq_true, if_false]
-  show (match stripOpening (toRead p) (opening (toRead p) ++ '>' :: (['-'] ++ '\n' :: joinLines (segs.map (spaces N ++ ·)))) with
-    | none => none
-    | some (s, col0, parent) => readNode (toRead p) s col0 parent) = _
-  rw [hso]
+  show readDoc (toRead p) (preamble o ++ (openingO o (toRead p) ++ '>' :: (['-'] ++ '\n' :: joinLines (segs.map (spaces N ++ ·))))) = _
+  rw [readDoc_open o (toRead p) hstep '>' _ (by decide) (by decide) (by decide) hnul]
   simp only [Bool.false_eq_true, if_false] at hnode
   simp only [hnode, Option.bind_some, onlyTrailers, List.all_nil, if_true]
 
